@@ -1055,11 +1055,25 @@ class Engine:
 
     def ex_List(self, e, st):
         out = []
-        for st1, vs in self.eval_seq(e.elts, st):
+        starred = [i for i, x in enumerate(e.elts) if isinstance(x, ast.Starred)]
+        elts = [x.value if isinstance(x, ast.Starred) else x for x in e.elts]
+        for st1, vs in self.eval_seq(elts, st):
             if isinstance(vs, Raised):
                 out.append((st1, vs))
-            else:
-                out.append((st1, self.new_list(vs, st1)))
+                continue
+            if starred:
+                # [a, *xs, b]: a statically known xs is spliced in
+                flat = []
+                for i, v in enumerate(vs):
+                    if i in starred:
+                        items = self.static_items(v)
+                        if items is None:
+                            raise Unsupported(e, 'starred element of symbolic length in a list display')
+                        flat.extend(items)
+                    else:
+                        flat.append(v)
+                vs = flat
+            out.append((st1, self.new_list(vs, st1)))
         return out
 
     def new_list(self, items, st):
